@@ -86,6 +86,16 @@ _USED = ("(truthy(self.metadata) and len(md_certs(self.metadata, ISS)) > 0 and k
          " and XS_OK(DOC(decoded_xml), node_name, item.id, tmpfile(pem(md_certs(self.metadata, ISS)[k])))) or "
          "(not (truthy(self.metadata) and len(md_certs(self.metadata, ISS)) > 0) and not truthy(self.only_use_keys_in_metadata) "
          " and k < len(inst_certs(item)) and XS_OK(DOC(decoded_xml), node_name, item.id, tmpfile(pem(inst_certs(item)[k]))))")
+# ENVELOPED (C01, atoms A2, A3, A5), a fact about the DOCUMENT that is handed to the tool: exactly one element carries the ID, it has
+# exactly one ds:Signature child, and no other ds:Signature precedes that child inside the element -- so the first signature the
+# tool meets when it starts at that element (E-XMLSEC) is the element's own.  The helper that computes it walks an ElementTree
+# (iter(), comprehensions over elements, next()): outside the verified subset, its contract is ASSUMED and bounded/wrap_table
+# compares it with an independent implementation on every generated document and ID.
+ghost('ENVELOPED', ['Val', 'Val', 'Val'], 'Bool')
+contract('saml2_tophat.sigver:signature_is_enveloped', trusted=True, params=['xml', 'node_id', 'id_attr'], defaults={'id_attr': 'ID'},
+         returns='Bool', ensures=['vb(result) == ENVELOPED(DOC(xml), node_id, id_attr)'], raises={'Exception': 'True'}, modifies=[],
+         assumptions=['E-ET', 'E-DEFUSED'],
+         note='ASSUMED (ElementTree walk); cross-checked by bounded/wrap_table against an independent implementation')
 contract(SC + '._check_signature',
          types={'decoded_xml': 'Union(Str, Bytes)', 'item': "Inst('saml2_tophat:SamlBase')", 'node_name': 'Str', 'origdoc': 'Any',
                 'id_attr': 'Str', 'must': 'Any', 'only_valid_cert': 'Any',
@@ -101,6 +111,10 @@ contract(SC + '._check_signature',
                    'truthy(item.id) and item.signature is not None and item.signature.signed_info is not None and '
                    'len(item.signature.signed_info.reference) == 1 and '
                    'item.signature.signed_info.reference[0].uri == concat("#", item.id)'),
+                  # C01 (A2, A3, A5): in the document handed to the tool the element is the only one with its ID and the first
+                  # signature at or below it is its own single Signature child
+                  ('C01-one-enveloped-signature-of-its-own',
+                   'ENVELOPED(DOC(decoded_xml), item.id, ite(truthy(id_attr), id_attr, self.id_attr))'),
                   # C01/C03/C10: normal return => the signature verified (tool said OK for this element id) under a
                   # certificate metadata holds for the issuer -- or, only when metadata has none and the configuration
                   # allows it, under a certificate embedded in the element's own signature
@@ -113,7 +127,8 @@ contract(SC + '._check_signature',
                     'modifies': ['list(certs)']},
                 1: {'inv': ['not truthy(verified)']}},
          comps={0: {'elem': ['res_i[1] == tmpfile(pem(src_i))', 'truthy(res_i[1])'], 'type': 'Tuple(Any, Str)'}},
-         clauses_from={'C01': ['C03-verified-under-issuer-key', 'C01-single-reference-to-own-id'], 'C03': ['C03-verified-under-issuer-key'],
+         clauses_from={'C01': ['C03-verified-under-issuer-key', 'C01-single-reference-to-own-id',
+                               'C01-one-enveloped-signature-of-its-own'], 'C03': ['C03-verified-under-issuer-key'],
                        'C10': ['C03-verified-under-issuer-key'], 'C20': ['C03-verified-under-issuer-key']})
 
 
@@ -225,9 +240,11 @@ contract(SC + '.check_signature',
                    "or isinstance(item, 'saml2_tophat.samlp:StatusResponseType_')"],
          ensures=[('same-item', 'result == item'),
                   ('C01-verified', 'SIG_OK(self, origdoc, item, node_name, issuer)'),
-                  ('C01-reference-own-id', 'REF_OK(item)')],
+                  ('C01-reference-own-id', 'REF_OK(item)'),
+                  ('C01-one-enveloped-signature-of-its-own',
+                   'ENVELOPED(DOC(origdoc), item.id, ite(truthy(id_attr), id_attr, self.id_attr))')],
          raises={'Exception': 'True'}, modifies=[],
-         clauses_from={'C01': ['C01-verified', 'C01-reference-own-id'], 'C03': ['C01-verified'], 'C20': ['C01-verified']})
+         clauses_from={'C01': ['C01-verified', 'C01-reference-own-id', 'C01-one-enveloped-signature-of-its-own'], 'C03': ['C01-verified'], 'C20': ['C01-verified']})
 
 contract(SC + '.correctly_signed_response',
          types={'decoded_xml': 'Union(Str, Bytes)', 'must': 'Any', 'origdoc': 'Any', 'only_valid_cert': 'Any',
@@ -237,10 +254,12 @@ contract(SC + '.correctly_signed_response',
                   ('C02-required', 'implies(truthy(require_response_signature), RP(decoded_xml))'),
                   ('C01-verified', "implies(RP(decoded_xml) and not ('do_not_verify' in kwargs) and truthy(result.id), "
                                    "SIG_OK(self, decoded_xml, result, cname(result), None))"),
-                  ('C01-reference-own-id', "implies(RP(decoded_xml) and not ('do_not_verify' in kwargs), REF_OK(result))")],
+                  ('C01-reference-own-id', "implies(RP(decoded_xml) and not ('do_not_verify' in kwargs), REF_OK(result))"),
+                  ('C01-one-enveloped-signature-of-its-own',
+                   "implies(RP(decoded_xml) and not ('do_not_verify' in kwargs), ENVELOPED(DOC(decoded_xml), result.id, self.id_attr))")],
          raises={'TypeError': 'True', 'SigverError': 'True', 'Exception': 'True'},
          modifies=[],
-         clauses_from={'C01': ['C01-verified', 'C01-reference-own-id'], 'C02': ['C02-required', 'C01-verified'], 'C20': ['C01-verified']})
+         clauses_from={'C01': ['C01-verified', 'C01-reference-own-id', 'C01-one-enveloped-signature-of-its-own'], 'C02': ['C02-required', 'C01-verified'], 'C20': ['C01-verified']})
 
 
 # ---- requests and other non-response messages: one specialised variant of correctly_signed_message per message type
@@ -291,10 +310,12 @@ for _t, (_fq, _cls) in MSG_VARIANTS.items():
                       ('C10-must', 'implies(truthy(must), truthy(result.signature))'),
                       ('C10-verified', 'implies(truthy(result.signature) and truthy(result.id), '
                                        'SIG_OK(self, decoded_xml, result, cname(result), None))'),
-                      ('C01-reference-own-id', 'implies(truthy(result.signature), REF_OK(result))')],
+                      ('C01-reference-own-id', 'implies(truthy(result.signature), REF_OK(result))'),
+                      ('C01-one-enveloped-signature-of-its-own',
+                       'implies(truthy(result.signature), ENVELOPED(DOC(decoded_xml), result.id, self.id_attr))')],
              raises={'TypeError': 'True', 'SigverError': 'True', 'Exception': 'True'}, modifies=[],
              clauses_from={'C10': ['C10-parsed-as-expected-type', 'C10-must', 'C10-verified'],
-                           'C01': ['C10-verified', 'C01-reference-own-id']})
+                           'C01': ['C10-verified', 'C01-reference-own-id', 'C01-one-enveloped-signature-of-its-own']})
 contract(SC + '.correctly_signed_message', trusted=True, variants=_variants,
          note='dispatch stub: every call site in the package passes a constant message type and is checked against the '
               'specialised variant; a call with a non-constant type would fall back to this (no guarantees)')
